@@ -167,14 +167,14 @@ def single_defs(f):
                 if not s['place']['proj']:
                     cnt[s['place']['local']] += 1
                     d[s['place']['local']] = ('rv', s['rv'], s.get('at'))
-                else:
+                elif s['place']['proj'][0]['k'] != 'deref':
                     cnt[s['place']['local']] += 2  # partially written: not single-def
         t = b['term']
         if t['k'] == 'call':
             if not t['dest']['proj']:
                 cnt[t['dest']['local']] += 1
                 d[t['dest']['local']] = ('call', t, t.get('at'))
-            else:
+            elif t['dest']['proj'][0]['k'] != 'deref':
                 cnt[t['dest']['local']] += 2
     return {k: v for k, v in d.items() if cnt[k] == 1}
 
@@ -494,3 +494,72 @@ def expr_mentions_field(e, adt, field):
         if isinstance(x, list) and any(isinstance(y, tuple) and expr_mentions_field(y, adt, field) for y in x):
             return True
     return False
+
+
+PLUMBING = ('as std::ops::Try>::branch', 'Option::<T>::ok_or', 'Option::<T>::unwrap', 'Option::<T>::expect', 'Result::<T, E>::unwrap',
+            'Result::<T, E>::expect', 'Option::<T>::as_ref', 'Option::<T>::as_mut', 'Option::<T>::take', 'as std::convert::Into<U>>::into',
+            'as std::convert::From<T>>::from', 'as std::clone::Clone>::clone', 'as std::ops::Deref>::deref', 'as std::ops::DerefMut>::deref_mut',
+            'Option::<T>::unwrap_or', 'Option::<T>::copied', 'Option::<T>::cloned', 'as std::borrow::Borrow<T>>::borrow',
+            'Vec::<T, A>::as_mut_slice', 'Vec::<T, A>::as_slice', 'Result::<T, E>::ok')
+
+
+def roots(f, defs, op, depth=16, _seen=None):
+    """Where a value comes from, looking through copies, casts, projections and Option/Result plumbing.
+
+    Returns a list of ('call', path, terminator) | ('load', place) | ('param', n) | ('const', v) | ('local', n) | ('agg', rv)
+    """
+    _seen = _seen if _seen is not None else set()
+    k = op.get('k')
+    if k == 'const':
+        return [('const', op.get('val', op.get('dbg')))]
+    if k not in ('copy', 'move'):
+        return [('unknown', None)]
+    return roots_place(f, defs, op['place'], depth, _seen)
+
+
+def roots_place(f, defs, pl, depth=16, _seen=None):
+    _seen = _seen if _seen is not None else set()
+    loc = pl['local']
+    has_field_on_deref = False
+    # a load through a reference: (*_x).field -> the field of whatever _x points to
+    if 1 <= loc <= f['arg_count'] and not any(p['k'] == 'field' for p in pl['proj']):
+        return [('param', loc)]
+    if any(p['k'] == 'field' and p.get('adt') not in (None, '(tuple)', '(closure)') and p.get('adt') not in
+           ('std::result::Result', 'std::option::Option', 'std::ops::ControlFlow') for p in pl['proj']):
+        return [('load', pl)]
+    if depth <= 0 or loc in _seen:
+        return [('local', loc)]
+    d = defs.get(loc)
+    if d is None:
+        if 1 <= loc <= f['arg_count']:
+            return [('param', loc)]
+        return [('local', loc)]
+    _seen = _seen | {loc}
+    if d[0] == 'call':
+        t = d[1]
+        p = call_path(t) or ''
+        if any(x in p for x in PLUMBING) and t['args']:
+            return roots(f, defs, t['args'][0], depth - 1, _seen)
+        return [('call', p, t)]
+    rv = d[1]
+    k = rv['k']
+    if k == 'use' or k == 'cast':
+        return roots(f, defs, rv['x'], depth - 1, _seen)
+    if k in ('ref', 'rawptr'):
+        return roots_place(f, defs, rv['place'], depth - 1, _seen)
+    if k == 'aggregate':
+        # tuple / Some(x): follow the projected component when the place names one, else all
+        idx = [p['i'] for p in pl['proj'] if p['k'] == 'field']
+        if idx and idx[0] < len(rv['ops']):
+            return roots(f, defs, rv['ops'][idx[0]], depth - 1, _seen)
+        out = []
+        for o in rv['ops']:
+            out += roots(f, defs, o, depth - 1, _seen)
+        return out or [('agg', rv)]
+    if k == 'binop':
+        return roots(f, defs, rv['l'], depth - 1, _seen) + roots(f, defs, rv['r'], depth - 1, _seen)
+    return [('local', loc)]
+
+
+def root_calls(rs):
+    return [r[1] for r in rs if r[0] == 'call']
